@@ -693,6 +693,109 @@ theorem c11_const_partial (v x : Json) (h : v.toPrim?.isSome = true) (hx : instO
 
 example : (Json.str [49]).toPrim?.isSome = true := by decide
 
+/-! #### scalar instances against ANY member list (arrays / objects / null among the members included) -/
+
+/-- the schema `literalSchema` builds for a member. -/
+def litS (v : Json) : S :=
+  match v.toPrim? with
+  | some .null => .nil
+  | some p => .lit [p]
+  | none => .lit []
+
+theorem litOfJ_eq (v : Json) : litOfJ v = .ok (litS v) := by
+  cases v <;> simp [litOfJ, litS, Json.toPrim?, litOf]
+
+theorem seqR_litOfJ (vs : List Json) : seqR (vs.map litOfJ) = .ok (vs.map litS) := by
+  induction vs with
+  | nil => rfl
+  | cons v vs ih => simp only [List.map_cons, seqR, litOfJ_eq, ih]
+
+theorem plainify_litS (v : Json) : plainify (litS v) = litS v := by
+  cases v <;> simp [litS, Json.toPrim?, plainify]
+
+theorem plainifyL_litS (vs : List Json) : plainifyL (slistOf (vs.map litS)) = slistOf (vs.map litS) := by
+  induction vs with
+  | nil => rfl
+  | cons v vs ih => simp [slistOf, plainifyL, plainify_litS, ih]
+
+theorem accepts_litS (v x : Json) (hx : x.toPrim?.isSome = true) (hn : x.isNull = false) :
+    accepts (litS v) x = jsonEq x v := by
+  cases v <;> cases x <;> simp_all [litS, Json.toPrim?, accepts, jsonEq, Json.isPrim, Json.isNull]
+
+theorem anyAccepts_litS (vs : List Json) (x : Json) (hx : x.toPrim?.isSome = true) (hn : x.isNull = false) :
+    anyAccepts (slistOf (vs.map litS)) x = vs.any (fun v => jsonEq x v) := by
+  induction vs with
+  | nil => rfl
+  | cons v vs ih => simp [slistOf, anyAccepts, accepts_litS v x hx hn, ih]
+
+theorem allStrsJ_some (vs : List Json) (strs : List Str) (h : allStrsJ vs = some strs) : vs = strs.map Json.str := by
+  induction vs generalizing strs with
+  | nil => simp [allStrsJ] at h; subst h; rfl
+  | cons v vs ih =>
+    cases v <;> simp [allStrsJ] at h
+    obtain ⟨r, hr, rfl⟩ := h
+    simp [ih r hr]
+
+theorem any_jsonEq_strs (strs : List Str) (x : Json) :
+    (strs.map Json.str).any (fun v => jsonEq x v) = (match x with | .str s => strs.contains s | _ => false) := by
+  induction strs with
+  | nil => cases x <;> simp
+  | cons s strs ih =>
+    simp only [List.map_cons, List.any_cons, ih]
+    cases x <;> simp [jsonEq]
+    rename_i a; by_cases e : a = s <;> simp [e]
+
+theorem null_not_member (vs : List Json) (h : vs.any (fun v => v.isNull) = false) :
+    vs.any (fun v => jsonEq .null v) = false := by
+  induction vs with
+  | nil => rfl
+  | cons v vs ih =>
+    simp only [List.any_cons, Bool.or_eq_false_iff] at h ⊢
+    exact ⟨by cases v <;> simp_all [jsonEq, Json.isNull], ih h.2⟩
+
+theorem scalar_no_panic (vs : List Json) (x : Json) (hx : x.toPrim?.isSome = true) : parsePanicsJ vs x = false := by
+  have : vs.any (fun v => sameComposite x v) = false := by
+    induction vs with
+    | nil => rfl
+    | cons v vs ih => cases x <;> simp_all [Json.toPrim?, sameComposite]
+  simp [parsePanicsJ, this]
+
+/-- the enum documents for which a SCALAR instance is judged correctly: any members whatsoever — arrays, objects, null,
+    repeats, strings spelling other members — provided the instance is not null or null is not a member. -/
+def scalarCase (vs : List Json) (x : Json) : Bool :=
+  !vs.isEmpty && x.toPrim?.isSome && (!x.isNull || !vs.any (fun v => v.isNull))
+
+/-- C11 for enum documents with arbitrary members, on scalar instances: FromJSONSchema succeeds, ParseAny does not panic,
+    and the instance is accepted iff it is JSON-equal to a member.  (Array / object members never match a scalar, and the
+    Literal built for them never accepts one.) -/
+theorem c11_enum_scalar_instance (vs : List Json) (x : Json) (h : scalarCase vs x = true) :
+    ∃ s, fromEnumJ vs = .ok s ∧ parsePanicsJ vs x = false ∧ acceptsDecoded s x = enumValidJ vs x := by
+  simp only [scalarCase, Bool.and_eq_true, Bool.or_eq_true, Bool.not_eq_true', List.isEmpty_eq_false_iff] at h
+  obtain ⟨⟨hne, hx⟩, hnull⟩ := h
+  obtain ⟨v, vs', rfl⟩ := List.exists_cons_of_ne_nil hne
+  cases hs : allStrsJ (v :: vs') with
+  | some strs =>
+    refine ⟨.enum strs, by simp [fromEnumJ, hs], scalar_no_panic _ x hx, ?_⟩
+    rw [allStrsJ_some _ strs hs, enumValidJ, any_jsonEq_strs]
+    cases x <;> simp [acceptsDecoded, plainify, accepts]
+  | none =>
+    have hq := seqR_litOfJ (v :: vs')
+    refine ⟨.union (slistOf ((v :: vs').map litS)), by simp only [fromEnumJ, hs, hq], scalar_no_panic _ x hx, ?_⟩
+    simp only [acceptsDecoded, plainify, plainifyL_litS, accepts, enumValidJ]
+    cases hn : x.isNull with
+    | false =>
+      have := anyAccepts_litS (v :: vs') x hx hn
+      simp only [List.map_cons] at this
+      simp [this]
+    | true =>
+      have e := (isNull_iff x).1 hn
+      subst e
+      rcases hnull with h0 | h0
+      · simp [Json.isNull] at h0
+      · simp [null_not_member _ h0]
+
+example : scalarCase [.arr (.cons (.num 4) .nil), .str [91, 49, 93], .null, .obj .nil] (.str [91, 49, 93]) = true := by decide
+
 /-- full strength over all members: FALSE on the pinned code — an array / object member is never accepted, and an
     instance of its kind makes ParseAny panic (finding composite-literal); a null member of a union is shadowed by the
     union's nil path (finding nullable-union). -/
